@@ -95,13 +95,15 @@ def stretchFloat (single : Bool) (xs : List Float) (arg0 arg1 : Option Int) : Li
 
 /-- channel `i` of pixel-interleaved data with `d` channels: elements `i, d+i, 2d+i, …` (`img[:,:,i]` raveled) -/
 def channel {β : Type} (dflt : β) (d i : Nat) (xs : List β) : List β :=
-  (List.range (xs.length / d)).map fun p => xs.getD (p * d + i) dflt
+  let a := xs.toArray      -- (constant-time indexing: images of 2^16 pixels and more go through the driver)
+  (List.range (xs.length / d)).map fun p => a.getD (p * d + i) dflt
 
 /-- `np.dstack` of `d` arrays with `n·B` elements each whose common shape has `B` elements behind the second
     axis (`B = 1` for 1-D and 2-D arrays: pixel-interleaving): element `j` of the result comes from array
     `(j / B) % d`, position `(j / (B·d))·B + j % B`. -/
 def dstackData (B d n : Nat) (chs : List (List Int)) : List Int :=
-  (List.range (n * d * B)).map fun j => (chs.getD ((j / B) % d) []).getD ((j / (B * d)) * B + j % B) 0
+  let arrs := chs.map List.toArray
+  (List.range (n * d * B)).map fun j => (arrs.getD ((j / B) % d) #[]).getD ((j / (B * d)) * B + j % B) 0
 
 /-- shape of `np.dstack([a, b, c])` for three arrays of shape `s` (`atleast_3d`, then axis 2) -/
 def dstackShape : List Nat → List Nat
